@@ -70,6 +70,8 @@ def run(ctx):
         plan = [c + (None,) for c in plan]
         for b in ("hang", "late", "newer", "srv:stall_headers"):
             plan.append((b, "main", ["info", w_sealed], 0, 0, "stopped"))
+            plan.append((b, "main", ["info", w_sealed], 0, 0.3, "backwards"))
+            plan.append((b, "debug", ["verify", w_sealed], 0, 0.3, "backwards"))
         # references without the checker
         refs = {}
         for _, _, args, _, slow, _clock in plan:
@@ -81,7 +83,7 @@ def run(ctx):
         for (b, group, args, expexit, slow, clock), res in zip(plan, results):
             evals += 1
             ref = refs[json.dumps([args, slow])]
-            desc = f"server behaviour {b!r}, {'ascmhl' if group == 'main' else 'ascmhl-debug'} {' '.join(os.path.basename(a) if a.startswith('/') else a for a in args)}" + (f" (the command itself takes {slow} s)" if slow else "") + (" (wall clock standing still)" if clock else "")
+            desc = f"server behaviour {b!r}, {'ascmhl' if group == 'main' else 'ascmhl-debug'} {' '.join(os.path.basename(a) if a.startswith('/') else a for a in args)}" + (f" (the command itself takes {slow} s)" if slow else "") + (" (wall clock standing still)" if clock == "stopped" else (" (wall clock set back one hour while the command runs)" if clock else ""))
             rp = {"behaviour": b, "group": group, "args": [a.replace(base, "<base>") for a in args], "command_takes_seconds": slow}
             if res.get("timeout"):
                 fails.append({"what": f"{desc}: the process did not terminate within 20 s (the update check stalls the command)", "replay": rp})
